@@ -63,6 +63,9 @@ static void modelTest(const Desc& d, const Vec<int>& testGroups, const Vec<int>&
                 x.fails.push_back(f);
             }
             ExpOp e = { PH_PRE, (int)i, (int)p }; x.ops.push_back(e);
+            if (o.kind == K_DIE_SIGNAL && !(o.a == 17 || o.a == 18 || o.a == 23 || o.a == 28)) { x.childEnd = 1; x.childValue = (int)o.a; return; }
+            if (o.kind == K_DIE_ABORT) { x.childEnd = 1; x.childValue = 6; return; }
+            if (o.kind == K_DIE_EXIT) { x.childEnd = 2; x.childValue = (int)(o.a & 0xff); return; }
         }
     }
     int ptrSets = 0; size_t expectLeaks = 0; bool ignoreLeaks = false;
@@ -134,7 +137,10 @@ static void modelTest(const Desc& d, const Vec<int>& testGroups, const Vec<int>&
                 ExpOp e = { PH_POST, (int)i, (int)p }; x.ops.push_back(e);
                 ExpFail f; f.token = o.s2; f.file = "plugin.cpp"; f.line = (size_t)o.d; f.testName = formattedName(T); f.anyLocation = false; f.kind = 2;
                 x.fails.push_back(f);
-            } else { ExpOp e = { PH_POST, (int)i, (int)p }; x.ops.push_back(e); }
+            } else { ExpOp e = { PH_POST, (int)i, (int)p }; x.ops.push_back(e);
+                if (o.kind == K_DIE_SIGNAL && !(o.a == 17 || o.a == 18 || o.a == 23 || o.a == 28)) { x.childEnd = 1; x.childValue = (int)o.a; return; }
+                if (o.kind == K_DIE_ABORT) { x.childEnd = 1; x.childValue = 6; return; }
+                if (o.kind == K_DIE_EXIT) { x.childEnd = 2; x.childValue = (int)(o.a & 0xff); return; } }
         }
         ms.pluginCalls[p]++;
     }
@@ -280,6 +286,7 @@ void checkOracles(const Desc& d, const Obs& o, RunResult& r) {
     ModelState ms; ms.pluginCalls.assign(pluginGroups.size(), 0);
     size_t totalExpectedFailures = 0; bool anyRepFailed = false;
     Map<Str, size_t> tokenExpected;        // token -> how often a failure with it must have been printed
+    Map<Str, size_t> childTokens;          // the same for failures recorded inside forked children
     Vec<std::pair<Str, Str> > expectedBlocks;  // (header, token) per expected failure, for the console
     size_t failCursor = 0;
 
@@ -399,6 +406,8 @@ void checkOracles(const Desc& d, const Obs& o, RunResult& r) {
                     r.fail("C11", "parent_failures", sigOf("what", what), sfmt("rep %zu test %d (%s): parent recorded %zu failures %s, model expects %zu %s", rp, st.test, formattedName(T).c_str(), got.size(), g.c_str(), want.size(), w.c_str()));
                 }
                 for (size_t i = 0; i < segFails.size(); i++) { const FailRec& fr = o.fails[segFails[i]]; if (fr.file != T.sarg(2) || fr.line != (size_t)T.arg(1) || fr.testName != formattedName(T)) r.fail("C11", "failure_owner", sfmt("failure '%s' attributed to %s at %s:%zu", fr.msg.c_str(), fr.testName.c_str(), fr.file.c_str(), fr.line)); }
+                // what the child printed before it ended must have reached the console: every failure it recorded, exactly once
+                if (!d.pi("synthetic") && c.output != 3 && eintr <= 30 && !forkFail) for (size_t i = 0; i < x.fails.size(); i++)      // (a parent that gave up waiting may finish before the child has printed) if (x.fails[i].token.compare(0, 2, "tk") == 0) childTokens[x.fails[i].token]++;
                 if (!seen.empty()) r.fail("C11", "ran_in_parent", sfmt("test %d executed %zu statements in the parent process", st.test, seen.size()));
                 repFailures += segFails.size(); failCursor += segFails.size();
                 continue;
@@ -493,6 +502,13 @@ void checkOracles(const Desc& d, const Obs& o, RunResult& r) {
     if (o.fails.size() != failCursor) r.fail("C01", "failure_count", sigOf("what", "failure outside any test"), sfmt("%zu failures recorded, %zu inside test segments", o.fails.size(), failCursor));
 
     if (o.pluginCount != o.pluginCountExpected || o.removedStillFound) r.fail("C17", "plugin_removed", sigOf("what", o.pluginCount > o.pluginCountExpected ? "plugin not removed" : "wrong plugin removed"), sfmt("%d plugins installed after the removals, model %d; %d removed names still found", o.pluginCount, o.pluginCountExpected, o.removedStillFound));
+    if (c.separate && !d.pi("synthetic")) {
+        for (Map<Str, size_t>::const_iterator it = childTokens.begin(); it != childTokens.end(); ++it) {
+            size_t got = countOcc(o.childConsole, it->first);
+            if (got != it->second) { r.fail("C01", "printed_once", sigOf("what", got < it->second ? "failure recorded in the child never reached the console" : "failure printed more than once by the child"), sfmt("token %s printed %zu times by forked children, expected %zu", it->first.c_str(), got, it->second)); break; }
+        }
+        probe("child_console_checked");
+    }
     if (c.separate) {
         // hangs, SIGCONT per stop, fork per executed test
         size_t hangs = 0, forks = 0, conts = 0, stopsSeen = 0;
